@@ -327,4 +327,67 @@ theorem curGo_zero (l : Nat) (t : List (Option F)) (s : F) :
     · intro h'; cases h'
     · intro h'; exact absurd h' (h s)
 
+/-! ## `selectIdx`: idempotent at equal time and stable under `last := result` (any scalar instance) -/
+
+theorem selectIdx_classic (ls : List (SLink F)) (last : Option Nat) (now : Nat) (cfg : Cfg)
+    (h : cfg.classic = true) :
+    selectIdx ls last now cfg = (applyStallGate ls now cfg, classicSelect (applyStallGate ls now cfg) now) := by
+  unfold selectIdx; simp [h]
+
+theorem selectIdx_enhanced (ls : List (SLink F)) (last : Option Nat) (now : Nat) (cfg : Cfg)
+    (h : cfg.classic = false) :
+    selectIdx ls last now cfg = enhancedSelect (applyStallGate ls now cfg) last now cfg.quality := by
+  unfold selectIdx; simp [h]
+
+theorem enhancedSelect_fst (ls : List (SLink F)) (last : Option Nat) (now : Nat) (quality : Bool) :
+    (enhancedSelect ls last now quality).1 = ls.map (upd now quality (anyUnconstrained ls now)) := by
+  rw [enhancedSelect_eq]
+
+/-- The state after a select is a fixed point of the stall-guard pass at the same time. -/
+theorem gate_selectIdx_fixed (ls : List (SLink F)) (last : Option Nat) (now : Nat) (cfg : Cfg) (h : 0 < now) :
+    applyStallGate (selectIdx ls last now cfg).1 now cfg = (selectIdx ls last now cfg).1 := by
+  cases hc : cfg.classic
+  · rw [selectIdx_enhanced ls last now cfg hc, enhancedSelect_fst]
+    exact gate_fixed_map _ now cfg _ (upd_QOnly _ _ _) (gate_idem ls now cfg h)
+  · rw [selectIdx_classic ls last now cfg hc]
+    exact gate_idem ls now cfg h
+
+theorem selectIdx_idem (ls : List (SLink F)) (last : Option Nat) (now : Nat) (cfg : Cfg) (h : 0 < now) :
+    selectIdx (selectIdx ls last now cfg).1 last now cfg = selectIdx ls last now cfg := by
+  have hfix := gate_selectIdx_fixed ls last now cfg h
+  cases hc : cfg.classic
+  · rw [selectIdx_enhanced _ last now cfg hc, hfix, selectIdx_enhanced ls last now cfg hc]
+    exact enhancedSelect_idem _ _ _ _
+  · rw [selectIdx_classic _ last now cfg hc, hfix, selectIdx_classic ls last now cfg hc]
+
+theorem selectIdx_stable (ls : List (SLink F)) (last : Option Nat) (now : Nat) (cfg : Cfg) (r : Nat)
+    (h : 0 < now) (hr : (selectIdx ls last now cfg).2 = some r) :
+    selectIdx (selectIdx ls last now cfg).1 (some r) now cfg = ((selectIdx ls last now cfg).1, some r) := by
+  have hfix := gate_selectIdx_fixed ls last now cfg h
+  cases hc : cfg.classic
+  · rw [selectIdx_enhanced _ (some r) now cfg hc, hfix]
+    rw [selectIdx_enhanced ls last now cfg hc] at hr ⊢
+    exact enhancedSelect_stable _ _ _ _ r hr
+  · rw [selectIdx_classic _ (some r) now cfg hc, hfix]
+    rw [selectIdx_classic ls last now cfg hc] at hr ⊢
+    dsimp only at hr ⊢
+    rw [hr]
+
+/-- Usability seen on the post-state of a select is usability of the input w.r.t. the configured
+timeout (the monitors evaluate it on the post-state). -/
+theorem selectIdx_usable_post (ls : List (SLink F)) (last : Option Nat) (now : Nat) (cfg : Cfg)
+    (h : ∃ c' ∈ (selectIdx ls last now cfg).1, usable now c' = true) :
+    ∃ c ∈ ls, usable now { c with connTimeoutMs := cfg.connTimeoutMs } = true := by
+  apply gate_usable_post ls now cfg
+  obtain ⟨c', hc', hu⟩ := h
+  cases hc : cfg.classic
+  · rw [selectIdx_enhanced ls last now cfg hc, enhancedSelect_fst] at hc'
+    obtain ⟨x, hx, rfl⟩ := List.mem_map.1 hc'
+    refine ⟨x, hx, ?_⟩
+    obtain ⟨q, t, hq⟩ := upd_QOnly now cfg.quality (anyUnconstrained (applyStallGate ls now cfg) now) x
+    rw [hq] at hu
+    exact hu
+  · rw [selectIdx_classic ls last now cfg hc] at hc'
+    exact ⟨c', hc', hu⟩
+
 end Srtla.SelLemmas
